@@ -1,5 +1,7 @@
 package main
 
+import "strings"
+
 func (p *Program) toolObligations(opts checkOpts) []*Obligation {
 	obls := p.toolGroundObligations()
 	if opts.prop == "C17" {
@@ -43,6 +45,24 @@ func (p *Program) extraCoverage(prop string) map[string]interface{} {
 	}
 	if p.benign != nil {
 		out["selftest_benign_corpus"] = p.benign
+	}
+	{
+		// proof alternatives declared by the contracts of the functions this property uses, and
+		// whether this run had to fall back on one (never on the unchanged tree)
+		var decl []string
+		for _, n := range p.Contracts.Order {
+			if fc := p.Contracts.Funcs[n]; len(fc.AltOrder) > 0 {
+				decl = append(decl, n+": "+strings.Join(fc.AltOrder, ", "))
+			}
+		}
+		if len(decl) > 0 {
+			used := p.variantLog
+			if used == nil {
+				used = []string{}
+			}
+			out["proof_alternatives"] = map[string]interface{}{"declared": decl, "this_run": used,
+				"rule": "base contract first; an alternative is generated only if an obligation of that function fails and accepted only if every obligation it generates is discharged"}
+		}
 	}
 	if p.selftest != nil {
 		out["selftest_must_fail_corpus"] = p.selftest
